@@ -67,6 +67,7 @@ impl<'a> Interp<'a> {
                 (PollingStrategy::next(), lo, below, "next".into())
             }
         };
+        self.quiesce_nowait();
         let hi_excl = (lo + count as u64).min(next).max(lo.min(next));
         let lo = lo.min(next);
         let want = (hi_excl - lo) as usize;
@@ -198,6 +199,8 @@ impl<'a> Interp<'a> {
         }
         // buffered messages are persisted by shutdown(); under no-wait that only queues them
         if self.cfg.no_wait && self.p.masked("KF-C03-1") {
+            // known finding KF-C03-1: shutdown only queues the buffered messages
+            self.out.exclude("KF-C03-1");
             let _ = self.node().background_save();
             self.quiesce_nowait();
         }
